@@ -340,6 +340,21 @@ def rule_attach(chk):
             okm = True
     chk.req(okm, "C13.attach", "MessageType.log:attaches-own-serializer", chk.where(ml), good="__eliot_serializer__ = self._serializer",
             fail="MessageType.log does not attach the type's own serializer")
+    # Message.write (deprecated API, still the path of MessageType(...).write and of tracebacks)
+    mw = ctx.func("_message", "Message.write")
+    mcfg = ctx.cfg(mw)
+    stores = [n for n in mcfg.live if isinstance(n.ast, ast.Assign) and isinstance(n.ast.targets[0], ast.Subscript) and isinstance(n.ast.targets[0].slice, ast.Constant)
+              and n.ast.targets[0].slice.value == "__eliot_serializer__" and common.is_self_attr(n.ast.value, "_serializer")]
+    lm_ = ctx.func("_action", "log_message")
+    al_ = ctx.func("_action", "Action.log")
+    sinks = [n for n, c, m in ctx.calls_to(mw, lm_)] + [n for n in mcfg.live for c, m in calls_in_node(n) if isinstance(c.func, ast.Attribute) and c.func.attr == "log"
+                                                          and any(k.arg is None for k in c.keywords)]
+    none_false = {(t, "false") for t in mcfg.live if t.kind == "test" and unparse(t.exprs[0]) == "self._serializer is not None"} | \
+                 {(t, "true") for t in mcfg.live if t.kind == "test" and unparse(t.exprs[0]) == "self._serializer is None"}
+    okw = bool(stores) and bool(sinks) and mcfg.must_pass([mcfg.entry], sinks, stores, avoid_edges=none_false)[0]
+    chk.req(okw, "C13.attach", "Message.write:attaches-serializer-on-every-path", chk.where(mw),
+            good="a message with a serializer carries it to log_message and to action.log alike",
+            fail="on some path (e.g. write(action=...)) a typed message is logged without its serializer: declared fields are not serialized and failing serializers go unreported")
     alog = ctx.func("_action", "Action.log")
     _c, wcalls = c02._write_call(chk, alog)
     for n, c, m in wcalls:
